@@ -302,10 +302,54 @@ def r2_ranges(rep, g, a):
         else:
             rep.bad(R, f'{fn}|range', f'`{fn}` accepts {fmt_set(acc)} but {what} requires {lo}..={hi}: '
                     f'extra {fmt_set(acc - exp)}, missing {fmt_set(exp - acc)}', loc)
-    # full_date_: leap predicate, month-length table, rejection comparison
+    # full_date_: leap predicate, month-length table, rejection comparison.  Decided on the verdicts of the function itself, evaluated with the
+    # outputs of its sub-parsers supplied (year, '-', month, '-', day): every month x day 0..=32 in a leap and a common year, and 29 February of
+    # every year 0..=2800 (the Gregorian rule has period 400).  The structural reading below is the fallback when that evaluation is not possible.
     b = facts.body(P + 'datetime::full_date_')
     body = b['body']
     loc = facts.loc(b)
+    from .den import ParseValueInterp, EvalPanic
+    pn = [p_['name'] for p_ in b.get('params', []) if p_.get('k') == 'p_bind']
+
+    def verdict(y, m, d):
+        it = ParseValueInterp(g.ev, [y, 0x2D, m, 0x2D, d])
+        r = it.run(body, {pn[0]: ('opaque',), '@assign': {}})
+        if not (isinstance(r, tuple) and r and r[0] == 'ctor'):
+            raise Unanalysable(f'full_date_ evaluates to {r!r}')
+        if r[1].endswith('Result::Ok'):
+            dd = r[2][0][2] if isinstance(r[2][0], tuple) and len(r[2][0]) == 3 and isinstance(r[2][0][2], dict) else {}
+            if (dd.get('year'), dd.get('month'), dd.get('day')) != (y, m, d):
+                raise Unanalysable(f'full_date_({y}-{m}-{d}) yields {dd}')
+            return True
+        return False
+    try:
+        badm = []
+        for y, lp in ((2023, False), (2024, True)):
+            for m in range(1, 13):
+                got = max([d for d in range(0, 33) if verdict(y, m, d)] or [0])
+                upward_closed = all(verdict(y, m, d) == (d <= got) for d in range(1, 33))
+                if got != month_len(m, lp) or not upward_closed:
+                    badm.append((m, lp, got))
+        leap_got = {y for y in range(0, 2801) if verdict(y, 2, 29)}
+        exp_leap = {y for y in range(0, 2801) if gregorian_leap(y)}
+        rep.check(R, 'datetime::full_date_|leap-year', leap_got == exp_leap, '29 February accepted exactly in the Gregorian leap years 0..=2800',
+                  f'leap-year predicate differs from the Gregorian rule on years {sorted(leap_got ^ exp_leap)[:8]}…', loc)
+        rep.check(R, 'datetime::full_date_|month-length', not badm, 'month-length table equals the Gregorian calendar (24 cells)',
+                  f'month-length table wrong for (month, leap, got): {badm}', loc)
+        rep.ok(R, 'datetime::full_date_|day-vs-length', 'the days accepted in a month are 1..=some length (792 verdicts); the length is judged by month-length', loc)
+        rep.ok(R, 'datetime::full_date_|reject-is-error', 'a day beyond the accepted ones evaluates to Err', loc)
+        semantic_date = True
+    except (Unanalysable, EvalPanic, KeyError, IndexError) as e:
+        semantic_date = False
+        rep.notes.append(f'full_date_ could not be evaluated ({e}); read structurally.')
+    if semantic_date:
+        # offset: built from time_hour / time_minute
+        t = term(g, 'datetime::time_offset')
+        m = pm.trans_mentions(g, t)
+        rep.check(R, 'datetime::time_offset|fields', P + 'datetime::time_hour' in m and P + 'datetime::time_minute' in m,
+                  'numeric offset is lexed by time_hour ":" time_minute (ranges 0-23 / 0-59)',
+                  'time_offset no longer goes through time_hour / time_minute', facts.loc(facts.body(P + 'datetime::time_offset')))
+        return
     yv = binding_of_parser(body, 'date_fullyear')
     mv = binding_of_parser(body, 'date_month')
     dv = binding_of_parser(body, 'date_mday')
@@ -724,40 +768,47 @@ EXPECTED_FILTERS = {
 
 def r5_filters(rep, g, a):
     R = rep.rule('C01/R5', 'the inventory of verdict filters (verify / try_map / verify_map) in the parser equals the reviewed '
-                 'list; the offset filter accepts every offset the field ranges allow', floor=24)
+                 'list; the offset filter accepts every offset the field ranges allow', floor=18)
     facts = g.facts
-    got = {}
+    # per parser function, the number of rejecting filters (which of verify / verify_map / try_map spells one is not a verdict matter; whether
+    # the rejection carries a message is C15/R6, R7)
+    got, exp = {}, {}
     for d, t in g.terms.items():
         if t is None:
             continue
         for kind, i, x in pm.filters(g, t):
-            got[(short(d), kind)] = got.get((short(d), kind), 0) + 1
-    for key in sorted(set(got) | set(EXPECTED_FILTERS)):
-        e = EXPECTED_FILTERS.get(key, 0)
-        n = got.get(key, 0)
-        k = f'{key[0]}|{key[1]}'
+            got[short(d)] = got.get(short(d), 0) + 1
+    for (fn, kind), n in EXPECTED_FILTERS.items():
+        exp[fn] = exp.get(fn, 0) + n
+    for fn in sorted(set(got) | set(exp)):
+        e = exp.get(fn, 0)
+        n = got.get(fn, 0)
+        k = f'{fn}|filters'
         if n == e:
             rep.ok(R, k, f'{n} filter(s)')
         elif n < e:
-            rep.bad(R, k, f'`{key[0]}` has {n} `{key[1]}` filter(s), the reviewed parser has {e}: a verdict filter was dropped '
-                    f'(texts it rejected are now accepted)', facts.loc(facts.body(P + key[0])) if facts.has_body(P + key[0]) else '')
+            rep.bad(R, k, f'`{fn}` has {n} verdict filter(s) (verify / verify_map / try_map), the reviewed parser has {e}: a verdict filter was dropped '
+                    f'(texts it rejected are now accepted)', facts.loc(facts.body(P + fn)) if facts.has_body(P + fn) else '')
         else:
-            rep.bad(R, k, f'`{key[0]}` has {n} `{key[1]}` filter(s), the reviewed parser has {e}: an unreviewed filter can reject '
-                    f'valid documents', facts.loc(facts.body(P + key[0])) if facts.has_body(P + key[0]) else '')
-    # offset verify: must not reject any (sign, hour 0-23, minute 0-59)
-    t = term(g, 'datetime::time_offset')
-    fl = [x for x in pm.filters(g, t) if x[0] == 'verify']
-    loc = facts.loc(facts.body(P + 'datetime::time_offset'))
-    if fl:
-        clo = pm.closure_of(fl[0][2].get('filt'))
-        interp = Interp(g.ev)
-        try:
-            var = clo['params'][0]['name']
-            rej = [m for m in range(-(23 * 60 + 59), 23 * 60 + 60) if not interp.run(clo['body'], {var: m})]
-            rep.check(R, 'datetime::time_offset|verify-total', not rej, 'the offset verify rejects no in-range offset',
-                      f'the offset verify rejects in-range offsets (minutes) {rej[:5]}…', loc)
-        except (Unanalysable, KeyError, IndexError, TypeError) as e:
-            rep.incomplete(R, 'datetime::time_offset|verify-total', f'cannot tabulate the offset verify: {e}', loc)
+            rep.bad(R, k, f'`{fn}` has {n} verdict filter(s) (verify / verify_map / try_map), the reviewed parser has {e}: an unreviewed filter can reject '
+                    f'valid documents', facts.loc(facts.body(P + fn)) if facts.has_body(P + fn) else '')
+    # the offset filter must not reject any (sign, hour 0-23, minute 0-59): decided on the verdicts of time_offset with its sub-parsers' outputs supplied
+    from .den import ParseValueInterp, EvalPanic
+    b = facts.body(P + 'datetime::time_offset')
+    loc = facts.loc(b)
+    inp = [p_['name'] for p_ in b.get('params', []) if p_.get('k') == 'p_bind']
+    try:
+        rej = []
+        for sg in (ord('+'), ord('-')):
+            for hh in range(24):
+                for mm in range(60):
+                    r = ParseValueInterp(g.ev, [sg, hh, ord(':'), mm], choices=[1]).run(b['body'], {n_: ('input',) for n_ in inp})
+                    if not (isinstance(r, tuple) and len(r) == 3 and r[1].endswith('Result::Ok')):
+                        rej.append(f'{chr(sg)}{hh:02}:{mm:02}')
+        rep.check(R, 'datetime::time_offset|verify-total', not rej, 'no offset with hour 0-23 and minute 0-59 is rejected (2880 combinations)',
+                  f'time_offset rejects in-range offsets {rej[:5]}…', loc)
+    except (Unanalysable, EvalPanic, KeyError, IndexError, TypeError) as e:
+        rep.incomplete(R, 'datetime::time_offset|verify-total', f'cannot evaluate time_offset: {e}', loc)
 
 
 def r6_lines(rep, g, a):
@@ -964,15 +1015,42 @@ def r9_prefix_languages(rep, g, a):
 
 
 def comma_guard(rep, R, facts):
-    # the value guard the combinator model does not see: the trailing comma is only tried when the list is non-empty
+    # the value guard the combinator model does not see: the trailing comma is only tried when the list is non-empty.  Accepted spellings: the
+    # optional separator inside `if !list.is_empty() { .. }`, in the else branch of `if list.is_empty()`, or as the right operand of
+    # `!list.is_empty() && ..` (and the `len()` comparisons that say the same)
+    from .shared import path_to
+    from .den import Evaluator
     b = facts.body(P + 'array::array_values')
+
+    def nonempty(c, positive=True):
+        """does the condition c say `the list is not empty` (positive) / `the list is empty` (not positive)?"""
+        c = peel(c)
+        if c.get('k') == 'unary' and c.get('op') == '!':
+            return nonempty(c['a'], not positive)
+        if c.get('k') == 'mcall' and c.get('name') == 'is_empty':
+            return not positive
+        if c.get('k') == 'binary' and c.get('op') in ('>', '!=', '>=', '==', '<') and peel(c['a']).get('k') == 'mcall' and peel(c['a']).get('name') == 'len':
+            try:
+                v = Evaluator(facts).integer(c['b'])
+            except Unanalysable:
+                return False
+            says_nonempty = (c['op'], v) in (('>', 0), ('!=', 0), ('>=', 1))
+            says_empty = (c['op'], v) in (('==', 0), ('<', 1))
+            return says_nonempty if positive else says_empty
+        return False
     okg = False
-    for n in walk(b['body']):
-        if n.get('k') == 'if':
-            c = peel(n['cond'])
-            if c.get('k') == 'unary' and c.get('op') == '!' and peel(c['a']).get('k') == 'mcall' and peel(c['a']).get('name') == 'is_empty':
-                okg = any(x.get('k') == 'path' and (x.get('path') or '').endswith('ARRAY_SEP') for x in walk(n['then']))
-    rep.check(R, 'array::array_values|comma-needs-element', okg, 'opt(ARRAY_SEP) only under !array.is_empty()', 'the trailing comma is accepted in an array without elements (`[,]`)', facts.loc(b))
+    seps = [n for n in walk(b['body']) if n.get('k') == 'call' and last_seg((peel(n.get('f', {})).get('path') or '')) == 'opt' and
+            any(x.get('k') == 'path' and (x.get('path') or '').endswith('ARRAY_SEP') for x in walk(n))]
+    for sp in seps:
+        for node, key in (path_to(b['body'], sp) or []):
+            if node.get('k') == 'if' and ((key == 'then' and nonempty(node['cond'])) or (key == 'else' and nonempty(node['cond'], False))):
+                okg = True
+            if node.get('k') == 'binary' and node.get('op') == '&&' and key == 'b' and nonempty(node['a']):
+                okg = True
+            if node.get('k') == 'binary' and node.get('op') == '||' and key == 'b' and nonempty(node['a'], False):
+                okg = True
+    rep.check(R, 'array::array_values|comma-needs-element', okg and len(seps) == 1, 'opt(ARRAY_SEP) only tried when the list is non-empty',
+              'the trailing comma is accepted in an array without elements (`[,]`)', facts.loc(b))
 
 # expected language of a function when it is not literally its ABNF rule: an ABNF expression over the rule names of spec/toml-1.0.0.abnf
 # (`end-of-input` = nothing follows), with the reason
